@@ -391,6 +391,13 @@ def oracle_c01(nodes, ev, viol):
     for e in ev:
         if e[2] == 'finish':
             finish_called_at.setdefault(e[3], e[0])
+    # finishedCheck(p) runs under the controller's comp_lock, which a scheduler pass holds from its decisions to the
+    # submissions that follow them: a finishedCheck that *returned* before a submission was serialised before the
+    # whole pass, so the pass has seen p's final state
+    recorded_at = {}
+    for e in ev:
+        if e[2] == 'finishedCheck-end':
+            recorded_at.setdefault(e[3], e[0])
     submitted_at = {}
     for e in ev:
         if e[2] != 'submit':
@@ -411,6 +418,12 @@ def oracle_c01(nodes, ev, viol):
                                  'detail': {'consumer': ref, 'producer': p, 'producer_state': pstate}})
                 # failed/shut-down subject: judged at the scheduling decision, not at the submission that follows it
                 pf = final_at.get(p)
+                pr = recorded_at.get(p)
+                if pf is not None and pr is not None and pr < seq and not pf < decided:
+                    if final_state[p] == 'failed' or (final_state[p] == 'component_shutdown' and not node['aggregate']):
+                        viol.append({'property': 'C01', 'sig': 'iii/iv:observer-submitted-after-controller-recorded-%s-subject'
+                                                               % ('failed' if final_state[p] == 'failed' else 'shutdown'),
+                                     'detail': {'consumer': ref, 'producer': p, 'recorded_seq': pr, 'submit_seq': seq}})
                 if pf is not None and pf < decided:
                     if final_state[p] == 'failed':
                         viol.append({'property': 'C01', 'sig': 'iii:launched-consumer-of-failed-producer',
@@ -460,6 +473,29 @@ def oracle_c02(nodes, ev, outcomes, states_end, states_settled, stop, viol, rec,
     def V(sig, detail):
         viol.append({'property': 'C02', 'sig': sig, 'detail': detail})
 
+    # 0. an exit reason the component lists as restartable is put to the restart policy (Engine.restart: budget, hook)
+    #    before the component gets a final state: the rules that follow (shutdown list, failure) apply to the exit that
+    #    remains once a restart is refused. Judged per execution, for plain components, when the component's own
+    #    post-mortem check saw that exit and the component had not been stopped by the controller.
+    for n, h in hist.items():
+        nd = nodes.get(n)
+        if nd is None or nd['repeat']:
+            continue
+        for i, x in enumerate(h):
+            r = x['reason']
+            if r is None or x.get('launch_failed') or r == 'SubmissionFailed' or r not in nd['restartHookOn']:
+                continue
+            lo = x['exit_seq']
+            hi = h[i + 1]['launch_seq'] if i + 1 < len(h) else float('inf')
+            pms = [e[0] for e in ev if e[2] == 'postMortemCheck' and e[3] == n and lo < e[0] < hi
+                   and e[4].get('exitReason') == r and not e[4].get('finishCalled')]
+            if not pms:
+                continue
+            if not any(e[2] == 'restart-begin' and e[3] == n and pms[0] < e[0] < hi for e in ev):
+                V('rules:restartable-exit-finalised-without-consulting-restart-policy',
+                  {'component': n, 'exit': r, 'execution': x['n'], 'restartHookOn': nd['restartHookOn'],
+                   'shutdownOn': nd.get('shutdownOn')})
+                break
     if stop is not None:
         stuck = sorted(n for n, s in states_end.items() if s not in FINAL and nodes[n]['stage'] in stages_run)
         stuck_states = {n: states_end[n] for n in stuck}
